@@ -36,7 +36,10 @@ binding:   (a) every edge of the closed LTS (control state x class) is replayed:
                with well-formed arguments (DESIGN D3);
            (d) random mutated changelogs of up to 60 lines parsed prefix by prefix, and random editing
                histories of up to 12 calls, recorded with independently classified lines and interned
-               contents and validated by TLC; corrupted control traces must be rejected.
+               contents and validated by TLC (full mode; a trace rejected there is re-validated in
+               verdict mode: rejected again = violation, otherwise specification drift).  Every
+               validation run also contains two hand-written golden traces (must be accepted) and
+               seven corruptions of them (must be rejected).
 verdict observables (the statement): the lenient constructor returns; number of warnings > 0 <=> the
            strict constructor raises ChangelogParseError, no other exception type; whenever str()
            succeeds (ChangelogCreateError = "cannot be formatted", any other exception is a
@@ -330,17 +333,6 @@ def run(ctx):
             ctx.violation({"kind": "text", "lines": lines, "aea": bool(i % 2), "classes": []}, "lenient constructor raised")
             continue
         traces.append(t)
-    controls, vcontrols = [], []
-    for how in ("strict", "blocks", "content", "moved", "nf", "order"):
-        for t in traces:
-            c = cc.corrupt_trace(t, how)
-            if c:
-                controls.append(c)
-                if how in ("strict", "nf"):
-                    vcontrols.append(c)
-                break
-    if (len(controls) < 5 or len(vcontrols) < 2) and not ctx.violations:
-        raise core.MachineryError("could not build the corrupted control traces")
     lap("record_traces")
     W = 4 if quick else 8
     jobs = [("lts", "MC_Changelog_lts.cfg", 1, {"EDGE"})]
@@ -356,7 +348,7 @@ def run(ctx):
     # quick: two of the negative controls (closed automaton, normal-form law); thorough: all five
     controls_now = [n for n in NEG_CONTROLS if not quick or n[0] in ("noBranch:CNoDetailsReject", "trailingFirst")]
     with ThreadPoolExecutor(max_workers=4 if quick else 3) as ex:
-        f_traces = ex.submit(cc.validate, ctx, traces, controls, vcontrols)
+        f_traces = ex.submit(cc.validate, ctx, traces)
         futs = {name: ex.submit(ctx.tlc_must_hold, "Changelog", c, workers=w, want_tags=tags) for name, c, w, tags in jobs[1:]}
         futs["lts"] = ex.submit(ctx.tlc_must_hold, "Changelog", jobs[0][1], workers=1, want_tags={"EDGE"})
         negs = {name: ex.submit(neg_control, ctx, name, text, want) for name, text, want in controls_now}
@@ -397,6 +389,9 @@ def run(ctx):
         if len(ctx.violations) >= 5:
             break
     ctx.extra["lts_edges_replayed"] = n_edges
+    ctx.extra["model_constants"] = {"classes": len(cc.ALL_CLASSES), "AEAs": [True, False],
+                                    "text": "MaxLines 6, Budget 1" if quick else "MaxLines 5 / Budget 2 and MaxLines 7 / Budget 1",
+                                    "edit": "MaxLines 3, Budget 1, 5 classes, MaxEdits 2" if quick else "MaxLines 3, Budget 1, 7 classes, MaxEdits 3 and MaxLines 2, Budget 0, MaxEdits 4"}
     e = step_edges[len(step_edges) // 3]
     ctx.sample("lts edge: " + json.dumps(e, separators=(",", ":")))
 
